@@ -110,7 +110,13 @@ func Specs() map[string]*PropSpec {
 		Stubs:       []string{"c08AK", "c08BK", "c08Inner (records what reaches the SDK staking server)"},
 	}
 	m["C14"] = &PropSpec{
-		ID: "C14", Pkgs: []string{"./x/bank/keeper"},
+		ID: "C14", Pkgs: []string{"./x/bank/keeper", "./app"},
+		Wiring: []WiringFact{
+			{Fn: "github.com/haqq-network/haqq/app.NewHaqq", Callee: "github.com/cosmos/cosmos-sdk/x/gov/keeper.NewKeeper", Arg: 3, Want: "*github.com/haqq-network/haqq/x/bank/keeper.BaseKeeper",
+				Why: "the gov keeper must burn deposits through Haqq's bank keeper wrapper", ProbePkg: "app", ProbeTest: "TestVerifWiringC14"},
+			{Fn: "github.com/haqq-network/haqq/app.NewHaqq", Callee: "github.com/haqq-network/haqq/x/staking/keeper.NewKeeper", Arg: 3, Want: "*github.com/haqq-network/haqq/x/bank/keeper.BaseKeeper",
+				Why: "the staking keeper must burn slashed stake through Haqq's bank keeper wrapper", ProbePkg: "app", ProbeTest: "TestVerifWiringC14"},
+		},
 		Quick:    []Inst{{Pkg: "x/bank/keeper", Fn: "VerifC14_Burn", Params: pm()}},
 		Thorough: []Inst{{Pkg: "x/bank/keeper", Fn: "VerifC14_Burn", Params: pm()}},
 		Bounds: map[string]string{
